@@ -201,3 +201,43 @@ Qed.
 Theorem raw_groups_count m nm k :
   dict_get (raw_groups m nm) k == fold_right (fun i s => occ k (group_of m nm i) + s) 0 (seq 0 (natom m)).
 Proof. unfold raw_groups. rewrite fold_groups_count. simpl. ring. Qed.
+
+(* ---------- "each correction descriptor is counted once per distinct SET of matched atoms" ---------- *)
+Local Close Scope Q_scope.
+Lemma same_set_spec a b : same_set a b = true <-> (forall x, In x a <-> In x b).
+Proof.
+  unfold same_set. rewrite andb_true_iff, !forallb_forall. split.
+  - intros [A B] x. split; intros H; apply mem_nat_In; auto.
+  - intros H. split; intros x Hx; apply mem_nat_In; apply H; exact Hx.
+Qed.
+Lemma same_set_refl a : same_set a a = true.
+Proof. apply same_set_spec. tauto. Qed.
+Lemma same_set_trans a b c : same_set a b = true -> same_set b c = true -> same_set a c = true.
+Proof. rewrite !same_set_spec. intros H1 H2 x. rewrite H1. apply H2. Qed.
+
+Lemma distinct_sets_sub l x : In x (distinct_sets l) -> In x l.
+Proof.
+  induction l as [|y l IH]; simpl; [tauto|]. destruct (existsb (same_set y) l); [auto|]. intros [<-|H]; auto.
+Qed.
+
+(* every match is represented: some kept tuple has the same atom set *)
+Theorem distinct_sets_cover l : forall x, In x l -> exists y, In y (distinct_sets l) /\ same_set x y = true.
+Proof.
+  induction l as [|z l IH]; intros x H; [destruct H|]. simpl.
+  destruct (existsb (same_set z) l) eqn:E.
+  - destruct H as [<-|H]; [|apply IH; exact H].
+    apply existsb_exists in E. destruct E as (w & Hw & Sw). destruct (IH w Hw) as (y & Hy & Sy).
+    exists y. split; [exact Hy|]. eapply same_set_trans; eauto.
+  - destruct H as [<-|H]; [exists z; split; [left; reflexivity|apply same_set_refl]|].
+    destruct (IH x H) as (y & Hy & Sy). exists y. split; [right; exact Hy|exact Sy].
+Qed.
+
+(* ... and only once: no two kept tuples have the same atom set *)
+Theorem distinct_sets_distinct l : ForallOrdPairs (fun a b => same_set a b = false) (distinct_sets l).
+Proof.
+  induction l as [|z l IH]; simpl; [constructor|].
+  destruct (existsb (same_set z) l) eqn:E; [exact IH|]. constructor; [|exact IH].
+  apply Forall_forall. intros y Hy. apply distinct_sets_sub in Hy.
+  destruct (same_set z y) eqn:S; [|reflexivity]. exfalso.
+  assert (existsb (same_set z) l = true) by (apply existsb_exists; exists y; auto). congruence.
+Qed.
